@@ -97,23 +97,26 @@ Lemma declare_file_spec strict c l f s :
   (strict = true -> (f = FUnconfirmed \/ f = FPlanned \/ f = FVolatile) /\
                     creator_good (KFile, l) c s /\ is_detached (KFile, l) s = true) ->
   wpg strict (declare_file c l f s)
-      (fun s' => Inv hh s' /\ NF [(KFile, l)] s s' /\ In (KFile, l) (KL (nodes s'))).
+      (fun s' => Inv hh s' /\ NF [(KFile, l)] s s' /\ In (KFile, l) (KL (nodes s')) /\
+                 creator_of (KFile, l) s' = Some c /\
+                 exists st, fstate_of l s' = Some st /\ (st = f \/ out_state st = true)).
 Proof.
   intros HI Hst. unfold declare_file.
-  assert (Hbad : forall t, f <> FUnconfirmed -> f <> FPlanned -> f <> FVolatile ->
-                 wpg strict (@Internal st t) (fun s' => Inv hh s' /\ NF [(KFile, l)] s s' /\ In (KFile, l) (KL (nodes s')))).
+  set (Q := fun s' => Inv hh s' /\ NF [(KFile, l)] s s' /\ In (KFile, l) (KL (nodes s')) /\
+                      creator_of (KFile, l) s' = Some c /\
+                      exists st, fstate_of l s' = Some st /\ (st = f \/ out_state st = true)).
+  assert (Hbad : forall t, f <> FUnconfirmed -> f <> FPlanned -> f <> FVolatile -> wpg strict (@Internal st t) Q).
   { intros t H1 H2 H3. destruct strict; [|exact I]. cbn. destruct (Hst eq_refl) as [[H|[H|H]] _]; congruence. }
-  assert (Hcreate : wpg strict (create (KFile, l) (Some c) (InitFile f) s)
-                      (fun s' => Inv hh s' /\ NF [(KFile, l)] s s' /\ In (KFile, l) (KL (nodes s'))) \/
+  assert (Hcreate : wpg strict (create (KFile, l) (Some c) (InitFile f) s) Q \/
                     (f <> FUnconfirmed /\ f <> FPlanned /\ f <> FVolatile)).
   { destruct f; try (right; repeat split; discriminate); left;
       (eapply wpg_weaken; [apply (@create_spec hh); [exact HI | split; [reflexivity | discriminate] |
          intros Hs; destruct (Hst Hs) as [_ [Hg Hd]]; split; [apply creator_ok_good; exact Hg|];
          split; [exact Hd | intros f0 Hf0; inversion Hf0; reflexivity]] |
-       intros s' [H1 [H2 [H3 _]]]; auto]). }
+       intros s' [H1 [H2 [H3 [_ [H5 H6]]]]]; unfold Q; split; [exact H1|]; split; [exact H2|]; split; [exact H3|]; split; [exact H5|]; apply (H6 _ eq_refl)]). }
   destruct f; try (apply Hbad; discriminate);
     (destruct Hcreate as [Hc|[H1 [H2 H3]]]; [|congruence]);
-    apply wpg_bind; eapply wpg_weaken; try exact Hc; intros s1 [HI1 [HNF1 HK1]]; cbn [wpg]; auto.
+    apply wpg_bind; eapply wpg_weaken; try exact Hc; intros s1 HQ1; cbn [wpg]; auto.
   destruct (attached_step_sinks l s1); cbn; auto.
 Qed.
 
@@ -140,7 +143,7 @@ Proof.
   { intros Hd. eapply wpg_weaken.
     - apply (@create_spec hh); [exact HI | split; [reflexivity | reflexivity] |].
       intros _. split; [reflexivity|]. split; [exact Hd|]. intros f Hf. inversion Hf. reflexivity.
-    - intros s1 [H1 [H2 [H3 H4]]]. split; [exact H1|]. split; [|exact H3].
+    - intros s1 [H1 [H2 [H3 [H4 _]]]]. split; [exact H1|]. split; [|exact H3].
       eapply NF_nil_of_create; [exact H2 | exact H4]. }
   assert (Hfin : forall s1, Inv hh s1 -> NF [] s s1 -> In (KFile, l) (KL (nodes s1)) ->
             wpg strict (let isnew := negb (has_dep (KFile, l) (KStep, step) s1) in
@@ -212,7 +215,8 @@ Proof.
                (forall l, In l rest -> ~ path (EL (deps s')) (KStep, step) (KFile, l)))).
       + intros s' l rest [I1 [I2 [I3 I4]]]. eapply wpg_weaken.
         * apply (@add_dep_spec hh); [exact I1 | rewrite I2; apply H3; apply I3; left; reflexivity
-                              | rewrite I2; exact Hstep1 | apply I4; left; reflexivity | reflexivity].
+                              | rewrite I2; exact Hstep1 | apply I4; left; reflexivity
+                              | intros sl f Ha; discriminate | reflexivity].
         * intros s'' [J1 J2]. split; [exact J1|]. subst s''. cbn [nodes deps set_deps].
           split; [exact I2|]. split; [intros x Hx; apply I3; right; exact Hx|].
           intros l' Hl' Hp. apply path_app_edge in Hp. destruct Hp as [Hp|[Hp _]].
@@ -228,13 +232,20 @@ Qed.
 
 Lemma add_output_edge_spec strict step l dyn s :
   Inv hh s -> In (KStep, step) (KL (nodes s)) -> In (KFile, l) (KL (nodes s)) ->
+  creator_of (KFile, l) s = Some (KStep, step) ->
+  (exists st, fstate_of l s = Some st /\ out_state st = true) ->
   wpg strict (add_output_edge step l dyn s) (fun s' => Inv hh s' /\ nodes s' = nodes s).
 Proof.
-  intros HI H1 H2. unfold add_output_edge.
+  intros HI H1 H2 Hcre Hout. unfold add_output_edge.
   destruct (would_cycle (KFile, l) [(KStep, step)] s) eqn:Ewc; [exact I|].
   eapply wpg_weaken.
-  - apply (@add_dep_spec hh); [exact HI | exact H1 | exact H2 | | reflexivity].
-    eapply would_cycle_false; [exact Ewc | left; reflexivity].
+  - apply (@add_dep_spec hh); [exact HI | exact H1 | exact H2 | | | reflexivity].
+    + eapply would_cycle_false; [exact Ewc | left; reflexivity].
+    + intros sl f Ha Hb n c Hn Hc. inversion Ha; inversion Hb; subst sl f.
+      unfold creator_of, find_node in Hcre. fold (findn (KFile, l) (nodes s)) in Hcre. rewrite Hn in Hcre.
+      split; [congruence|]. destruct Hout as [st0 [Hs1 Hs2]]. rewrite fstate_of_findf in Hs1.
+      destruct (findf l (files s)) as [r|]; [|discriminate]. exists r. split; [reflexivity|].
+      cbn in Hs1. congruence.
   - intros s' [J1 ->]. split; [exact J1 | reflexivity].
 Qed.
 
@@ -261,6 +272,8 @@ Qed.
 Lemma declare_fold_spec strict c f (after : str -> st -> res st) ls s :
   (f = FUnconfirmed \/ f = FPlanned \/ f = FVolatile) ->
   (forall l s1, Inv hh s1 -> In c (KL (nodes s1)) -> In (KFile, l) (KL (nodes s1)) ->
+                creator_of (KFile, l) s1 = Some c ->
+                (exists st, fstate_of l s1 = Some st /\ (st = f \/ out_state st = true)) ->
                 wpg strict (after l s1) (fun s2 => Inv hh s2 /\ nodes s2 = nodes s1)) ->
   Inv hh s -> In c (KL (nodes s)) ->
   (strict = true -> fst c <> KFile /\ creator_kind_ok KFile (fst c) = true /\ NoDup ls /\
@@ -280,8 +293,8 @@ Proof.
         destruct (I4 Hs) as [S3 S4]. split; [exact Hf|]. split.
         -- split; [apply find_node_KL; exact Hc'|]. split; [intros He; apply S1; rewrite He; reflexivity | exact S2].
         -- apply S4. left. reflexivity.
-      * intros s1 [J1 [J2 J3]]. eapply wpg_weaken.
-        -- apply Hafter; [exact J1 | apply (proj1 J2); exact Hc' | exact J3].
+      * intros s1 [J1 [J2 [J3 [J4 J5]]]]. eapply wpg_weaken.
+        -- apply Hafter; [exact J1 | apply (proj1 J2); exact Hc' | exact J3 | exact J4 | exact J5].
         -- intros s2 [K1 K2]. split; [exact K1|].
            assert (HNF : NF (fkeys ls) s' s2).
            { eapply NF_nodes_eq; [|exact K2]. eapply NF_weaken; [|exact J2].
@@ -349,7 +362,7 @@ Proof.
   2:{ intros s0 a. rewrite bind_ok_r. reflexivity. }
   eapply wpg_weaken.
   - apply declare_fold_spec; [auto | | exact HI | exact Ec |].
-    + intros l s1 H1 _ _. cbn. auto.
+    + intros l s1 H1 _ _ _ _. cbn. auto.
     + intros Hs. destruct (Hst Hs) as [_ [S2 S3]]. split; [|split; [exact S2|split; [apply T3; exact S3 | exact T1]]].
       intros He. rewrite He in S2. discriminate.
   - intros s' [H _]. exact H.
@@ -382,18 +395,22 @@ Proof.
   assert (Hdet3 : forall l, is_detached (KFile, l) s = true -> is_detached (KFile, l) s3 = true).
   { intros l Hd. rewrite (is_detached_nodes_eq _ _ _ N3). apply (proj2 NF2); [intros []|].
     apply (proj2 NF1); [|exact Hd]. intros [He|[]]. discriminate. }
-  assert (Hafter : forall l s1, Inv hh s1 -> In k (KL (nodes s1)) -> In (KFile, l) (KL (nodes s1)) ->
+  assert (Hafter : forall f, (f = FPlanned \/ f = FVolatile) ->
+             forall l s1, Inv hh s1 -> In k (KL (nodes s1)) -> In (KFile, l) (KL (nodes s1)) ->
+             creator_of (KFile, l) s1 = Some k ->
+             (exists st, fstate_of l s1 = Some st /\ (st = f \/ out_state st = true)) ->
              wpg strict (add_output_edge label l false s1) (fun s2 => Inv hh s2 /\ nodes s2 = nodes s1)).
-  { intros l t H1 H2 H3. apply add_output_edge_spec; assumption. }
+  { intros f Hf l t H1 H2 H3 H4 [st0 [H5 H6]]. apply add_output_edge_spec; try assumption.
+    exists st0. split; [exact H5|]. destruct H6 as [->|H6]; [destruct Hf as [->| ->]; reflexivity | exact H6]. }
   apply wpg_bind. eapply wpg_weaken.
   { apply (declare_fold_spec strict k FPlanned (fun l s => add_output_edge label l false s) out s3);
-      [auto | exact Hafter | exact I3 | exact K3 |].
+      [auto | apply Hafter; auto | exact I3 | exact K3 |].
     intros Hs. destruct (Hst Hs) as [_ [_ [S3 _]]]. split; [discriminate|]. split; [reflexivity|].
     split; [exact S3|]. intros l Hl. apply Hdet3. apply Hout. exact Hl. }
   intros s4 [I4 NF4].
   eapply wpg_weaken.
   { apply (declare_fold_spec strict k FVolatile (fun l s => add_output_edge label l false s) vol s4);
-      [auto | exact Hafter | exact I4 | apply (proj1 NF4); exact K3 |].
+      [auto | apply Hafter; auto | exact I4 | apply (proj1 NF4); exact K3 |].
     intros Hs. destruct (Hst Hs) as [_ [_ [_ S4]]]. split; [discriminate|]. split; [reflexivity|].
     split; [exact S4|]. intros l Hl. apply (proj2 NF4).
     - intros Hin. apply In_fkeys in Hin. exact (Hdisj l Hin Hl).
@@ -475,18 +492,22 @@ Proof.
   intros vol' [V1 [V2 V3]].
   destruct (existsb (fun l => mem_str l vol') out') eqn:Eov; [exact I|].
   pose proof (overlap_false _ _ Eov) as Hdisj.
-  assert (Hafter : forall l s1, Inv hh s1 -> In k (KL (nodes s1)) -> In (KFile, l) (KL (nodes s1)) ->
+  assert (Hafter : forall f, (f = FPlanned \/ f = FVolatile) ->
+             forall l s1, Inv hh s1 -> In k (KL (nodes s1)) -> In (KFile, l) (KL (nodes s1)) ->
+             creator_of (KFile, l) s1 = Some k ->
+             (exists st, fstate_of l s1 = Some st /\ (st = f \/ out_state st = true)) ->
              wpg strict (add_output_edge label l true s1) (fun s2 => Inv hh s2 /\ nodes s2 = nodes s1)).
-  { intros l t H1 H2 H3. apply add_output_edge_spec; assumption. }
+  { intros f Hf l t H1 H2 H3 H4 [st0 [H5 H6]]. apply add_output_edge_spec; try assumption.
+    exists st0. split; [exact H5|]. destruct H6 as [->|H6]; [destruct Hf as [->| ->]; reflexivity | exact H6]. }
   apply wpg_bind. eapply wpg_weaken.
   { apply (declare_fold_spec strict k FPlanned (fun l s => add_output_edge label l true s) out' s2);
-      [auto | exact Hafter | exact I2 | exact K2 |].
+      [auto | apply Hafter; auto | exact I2 | exact K2 |].
     intros Hs. destruct (Hst Hs) as [_ [S3 _]]. split; [discriminate|]. split; [reflexivity|].
     split; [apply O3; exact S3 | exact O1]. }
   intros s3 [I3 NF3].
   eapply wpg_weaken.
   { apply (declare_fold_spec strict k FVolatile (fun l s => add_output_edge label l true s) vol' s3);
-      [auto | exact Hafter | exact I3 | apply (proj1 NF3); exact K2 |].
+      [auto | apply Hafter; auto | exact I3 | apply (proj1 NF3); exact K2 |].
     intros Hs. destruct (Hst Hs) as [_ [_ S4]]. split; [discriminate|]. split; [reflexivity|].
     split; [apply V3; exact S4|]. intros l Hl. apply (proj2 NF3).
     - intros Hin. apply In_fkeys in Hin. exact (Hdisj l Hin Hl).
